@@ -13,6 +13,11 @@ func c17Complete(r *core.Run) {
 	allSetCoverage(r, "C17.V1")
 	c17ReloadAll(r)
 	c17NoEmptyEntry(r)
+	// the reference counts that decide which chunks a delete may remove also decide whether a
+	// surviving file's record stays truthful: a chunk released twice is removed while the other
+	// file still marks it present
+	refCountMultiplicity(r, "C17.A2")
+	refCountDisjoint(r, "C17.A3")
 	fn := r.W.Func(ciPkg, "(*chunkInfoTabNeighbor).isDownload")
 	if fn == nil {
 		r.Fatal("unresolved anchor %s.(*chunkInfoTabNeighbor).isDownload", ciPkg)
